@@ -455,6 +455,9 @@ def gen_cases(rng, tier):
                                  'form': rng.choice(['p+k', 'k+p', 'p-k', 'k-p'])}))
                 n = rng.choice([0, 1, 2, 2, 3, 3, 4]) if o <= 3 else rng.choice([0, 1, 2, 3])
                 cases.append(mk({'op': 'pow', 'a': rand_poly(rng, sh, o), 'n': n, 'xs': [rng.randint(-2, 2)]}))
+                if o <= 2:
+                    # high exponents (orders <= 2, |x| <= 1 keep float64 exact: |p|_1 <= 12, 12**12 < 2**53)
+                    cases.append(mk({'op': 'pow', 'a': rand_poly(rng, sh, o), 'n': rng.randint(5, 12), 'xs': [rng.randint(-1, 1)]}))
     # 3. eval: polynomial shape x point shape
     for _ in range(reps):
         for sa, sb in SHAPE_PAIRS:
@@ -511,6 +514,8 @@ def gen_cases(rng, tier):
             cases.append(mk({'op': 'und', 'sym': 'neg', 'a': with_d(rand_poly(rng, sh, o), rng)}))
             cases.append(mk({'op': 'und', 'sym': 'pow', 'n': rng.choice([0, 1, 2, 3, 4]) if o <= 3 else rng.choice([0, 1, 2]),
                              'a': with_d(rand_poly(rng, sh, o), rng)}))
+            cases.append(mk({'op': 'und', 'sym': 'pow', 'n': rng.randint(5, 11),
+                             'a': with_d(rand_poly(rng, sh, rng.randint(0, 2)), rng)}))
             cases.append(mk({'op': 'smuld', 'k': rng.randint(-3, 3), 'form': rng.choice(['left', 'right']),
                              'a': with_d(rand_poly(rng, sh, o), rng)}))
             # division / in-place scaling by a number or a zero-order polynomial; == and != across orders (oracle only)
@@ -550,7 +555,7 @@ def gen_cases(rng, tier):
         if k == 'roots': return ['roots'] if o >= 1 else ['neg']
         if k == 'invline': return ['invline'] if o == 1 else ['deriv', True]
         if k == 'smul': return ['smul', rng.choice([-2, 2, 3])]
-        if k == 'pow': return ['pow', rng.choice([2, 3])] if o <= 3 else ['neg']
+        if k == 'pow': return ['pow', rng.choice([2, 3, 5, 6])] if o <= 2 else (['pow', rng.choice([2, 3])] if o <= 3 else ['neg'])
         if k == 'neg': return ['neg']
         return [k, with_d(rand_poly(rng, rng.choice([[], list(sh)]), rng.randint(0, 3)), rng, 0.4)]
     def rand_mut(rng):
